@@ -119,7 +119,8 @@ impl System for LineSys {
             }
         }
         let view = sh::view(&h);
-        let key = util::hash128(&[format!("{:?}{}", view, dead).as_bytes()]);
+        // product state: implementation view x reference headers
+        let key = util::hash128(&[format!("{:?}{}", view, dead).as_bytes(), format!("{:?}", s).as_bytes()]);
         let enabled = if dead || violation.is_some() { vec![] } else { (0..self.lines.len() as u16).collect() };
         Outcome {
             key,
@@ -316,6 +317,45 @@ pub fn run(thorough: bool) -> Vec<Part> {
         |j| format!("case-pattern block {}", j),
     );
     t.record(&mut part, "name-case-patterns");
+    // (b') whitespace padding sweep around every recognised name and its value
+    let pads: Vec<&str> = vec![" ", "\t", "\u{a0}", "\u{3000}"];
+    let t = par_enum(
+        (names.len() * 41) as u64,
+        workers(),
+        120,
+        |j, t| {
+            let ni = j as usize / 41;
+            let lead = j as usize % 41;
+            let (name, value) = names[ni];
+            for trail in 0..=40usize {
+                for (pi, pad) in pads.iter().enumerate() {
+                    // vary where the padding goes: before the name / after the name / around the value
+                    let line = format!("{}{}{}:{}{}{}", pad.repeat(lead % 7), name, pad.repeat(trail), pads[(pi + 1) % 4].repeat(lead / 7), value, pad.repeat(trail % 5));
+                    let mut h = Headers::default();
+                    let r = h.parse_header_line(line.as_bytes());
+                    let v = sh::view(&h);
+                    t.evals += 1;
+                    if lead + trail > 0 {
+                        t.nontrivial += 1;
+                    }
+                    let recognised = match ni {
+                        0 => r.is_ok() && v.content_length == 5,
+                        1 => r.is_ok() && v.custom.is_empty(),
+                        2 => r.is_ok() && v.expect,
+                        3 => r.is_ok() && v.chunked,
+                        4 => r.is_ok() && v.custom.is_empty(),
+                        5 => r.is_ok() && v.accept_json,
+                        _ => r.is_err() && v.custom.is_empty(),
+                    };
+                    if !recognised {
+                        t.violate("name-padding", format!("header line {:?} (name padded with {} + {} whitespace characters) is not recognised as {} (result {:?}, headers {:?})", line, lead % 7, trail, name, r, v), json!({"engine": "c15block", "block": util::hex(&[line.as_bytes(), b"\r\n\r\n"].concat())}));
+                    }
+                }
+            }
+        },
+        |j| format!("padding sweep {}", j),
+    );
+    t.record(&mut part, "name-and-value-padding");
     // (c) blocks
     let n_full = if thorough { 4u32 } else { 3 };
     let a = all.len() as u64;
